@@ -342,21 +342,31 @@ func init() {
 		if ed == nil {
 			return "", fmt.Errorf("(*Linter).Error not found")
 		}
-		er := recvName(ed)
-		errLocked := false
-		if len(ed.Body.List) >= 2 {
-			if es, ok := ed.Body.List[0].(*ast.ExprStmt); ok {
-				if fld, ok := lockCall(es.X, er, "Lock"); ok && mutexFields[fld] {
-					if ds, ok := ed.Body.List[1].(*ast.DeferStmt); ok {
-						if f2, ok := lockCall(ds.Call, er, "Unlock"); ok && f2 == fld {
-							errLocked = true
-						}
-					}
-				}
+		// locksFirst: the method body starts with `<recv>.<mutex>.Lock(); defer <recv>.<mutex>.Unlock()`
+		locksFirst := func(fn *ast.FuncDecl) bool {
+			r := recvName(fn)
+			if fn.Body == nil || len(fn.Body.List) < 2 {
+				return false
 			}
+			es, ok := fn.Body.List[0].(*ast.ExprStmt)
+			if !ok {
+				return false
+			}
+			fld, ok := lockCall(es.X, r, "Lock")
+			if !ok || !mutexFields[fld] {
+				return false
+			}
+			ds, ok := fn.Body.List[1].(*ast.DeferStmt)
+			if !ok {
+				return false
+			}
+			f2, ok := lockCall(ds.Call, r, "Unlock")
+			return ok && f2 == fld
 		}
+		errLocked := locksFirst(ed)
 		fmt.Fprintf(&b, "Definition linter_error_locks_first : bool := %v.\n", errLocked)
-		// writers of <recv>.Errors in package linter outside Error
+		// writers of <recv>.Errors in package linter other than Error that do NOT hold the mutex the way Error does
+		// (a method that starts with Lock(); defer Unlock() on the same mutex field is as good as Error)
 		var outside []string
 		ents, err := os.ReadDir(filepath.Join(repo, "linter"))
 		if err != nil {
@@ -373,6 +383,9 @@ func init() {
 			for _, d := range pf.Decls {
 				fn, ok := d.(*ast.FuncDecl)
 				if !ok || fn.Body == nil || (recvType(fn) == "Linter" && fn.Name.Name == "Error") {
+					continue
+				}
+				if recvType(fn) == "Linter" && locksFirst(fn) {
 					continue
 				}
 				ast.Inspect(fn.Body, func(n ast.Node) bool {
